@@ -19,6 +19,7 @@ func runLive(o *Opts) *Summary {
 	s := &Summary{Mode: "live", Extra: map[string]interface{}{}}
 	var w *World
 	maxCycles := 0
+	nsplit := 0
 	for t := 0; t < o.Traces; t++ {
 		n := o.N
 		if n == 0 {
@@ -44,7 +45,18 @@ func runLive(o *Opts) *Summary {
 		cn.EmitInit(map[string]interface{}{"sched": "live-" + sn, "seed": o.Seed*1000 + int64(t), "nc": n + 1})
 		sc := makeSched(w, sn, n, o.Steps)
 		emptyOnly := t%4 == 2
-		for k := 0; k < o.Steps; k++ {
+		// vote splitter (n = 4): thirteen pulls, some of them truncated, after which
+		// the fame of validator 1's first witness is voted 2-2 in rounds 1 and 2
+		// while the witnesses of the later rounds are seen by everybody; a single
+		// transaction is pending; then the fair phase
+		split := n == 4 && t%2 == 1
+		steps := o.Steps
+		if split {
+			steps = 0
+			splitVotePrefix(cn)
+			nsplit++
+		}
+		for k := 0; k < steps; k++ {
 			if w.rng.Float64() < o.TxP {
 				tgt := cn.nodes[w.rng.Intn(len(cn.nodes))]
 				id, payload := w.RandTx()
@@ -84,7 +96,7 @@ func runLive(o *Opts) *Summary {
 			}
 		}
 		// late submissions right before the fair phase
-		for q := 0; q < 2; q++ {
+		for q := 0; q < 2 && !split; q++ {
 			tgt := live[w.rng.Intn(len(live))]
 			id, payload := w.RandTx()
 			if emptyOnly {
@@ -96,7 +108,7 @@ func runLive(o *Opts) *Summary {
 		// same signed request reaches one validator four times; only the last
 		// handler is still waiting for the answer.  The joiner itself stays silent.
 		retried := false
-		if f == 0 && n >= 4 && t%2 == 1 {
+		if f == 0 && n >= 4 && t%2 == 1 && !split {
 			retried = true
 			jp := w.AddPart()
 			itx := hg.NewInternalTransactionJoin(*jp.Peer)
@@ -185,9 +197,33 @@ func runLive(o *Opts) *Summary {
 		cn.Close()
 	}
 	s.Extra["max_cycles_to_idle"] = maxCycles
+	s.Extra["split_vote_prefixes"] = nsplit
 	s.Extra["bound"] = liveBound
 	s.Traces = o.Traces
 	s.Lines = w.lines
 	w.CloseTrace()
 	return s
+}
+
+// splitVotePrefix: the vote-splitting opening (the repository's "funky" shape,
+// produced by ordinary pulls).  SyncUpTo(a, b, id): a pulls from b and the
+// response is cut after event id (the sync limit in action); "" = empty response.
+func splitVotePrefix(cn *CoreNet) {
+	w := cn.w
+	nd := func(k int) *CNode { return cn.byNum[k] }
+	// first events: every validator records an empty exchange
+	for k := 1; k <= 4; k++ {
+		cn.SyncUpTo(nd(k), nd(k%4+1), "")
+	}
+	id, payload := w.RandTx()
+	cn.Submit(nd(3), id, payload)
+	for _, st := range []struct {
+		to, from int
+		last     string
+	}{
+		{3, 4, "c4.0"}, {2, 3, "c3.1"}, {1, 2, ""}, {2, 1, "c1.1"}, {3, 2, "c2.1"}, {4, 3, "c3.2"}, {3, 4, "c4.1"},
+		{2, 3, "c3.3"}, {1, 2, "c2.3"}, {3, 1, "c1.2"}, {4, 1, "c1.2"}, {2, 3, "c3.4"}, {1, 2, "c2.4"},
+	} {
+		cn.SyncUpTo(nd(st.to), nd(st.from), st.last)
+	}
 }
